@@ -19,6 +19,10 @@ import core
 _ABSENT = object()
 
 
+class OutOfDomain(Exception):
+    """a law input outside the law's domain (never a failure)"""
+
+
 class _Patcher:
     def __init__(self):
         self.undo = []
@@ -123,6 +127,10 @@ def probes(d):
     suffixes = machinery.EXTENSION_SUFFIXES
     saved_suffixes = list(suffixes)
     clear_caches()
+    import warnings
+    wctx = warnings.catch_warnings()
+    wctx.__enter__()
+    warnings.simplefilter("ignore")
     try:
         if "config" in d:
             table = dict(d["config"])
@@ -194,6 +202,7 @@ def probes(d):
             p.set(sys, "version_info", (x, y, 0, "final", 0))
         yield
     finally:
+        wctx.__exit__(None, None, None)
         p.restore()
         suffixes[:] = saved_suffixes
         clear_caches()
